@@ -2,6 +2,18 @@ package c09
 
 // Declarations: compilation unit, types of every kind, members, parameters.
 
+import "pgregory.net/rapid"
+
+// typeKind is the kind of structural container a type declaration opens: def, or "local" when the declaration
+// is a statement of a block.
+func (g *gen) typeKind(def string) string {
+	if g.pendingLocal {
+		g.pendingLocal = false
+		return "local"
+	}
+	return def
+}
+
 func (g *gen) compilationUnit() {
 	switch g.pickW(40, 1, 1, 1, 1, 1, 1, 1, 2) {
 	case 8:
@@ -83,6 +95,24 @@ func (g *gen) compilationUnit() {
 	for i := 0; i < k; i++ {
 		g.importDeclaration()
 	}
+	if g.rich() && rapid.IntRange(0, 29).Draw(g.t, "manyImports") == 29 {
+		// more imports than any small fixed capacity; now and then the same one again
+		g.use("many.imports")
+		n := g.manyCount(true)
+		for i := 0; i < n; i++ {
+			if i > 0 && g.chance(10) {
+				g.use("importDeclaration.duplicate")
+				g.w("import", "a")
+				g.glue(".")
+				g.glue("b")
+				g.glue(".")
+				g.glue("Dup")
+				g.w(";")
+				continue
+			}
+			g.importDeclaration()
+		}
+	}
 	if g.spring && g.rich() && g.chance(30) {
 		// NbService is the annotated interface of the 3-file project; classes of this unit implement it
 		g.use("importDeclaration.neighbour")
@@ -95,6 +125,10 @@ func (g *gen) compilationUnit() {
 		g.w(";")
 	}
 	n := 1 + g.pickW(6, 3, 2, 1)
+	if g.rich() && rapid.IntRange(0, 39).Draw(g.t, "manyTypes") == 39 {
+		g.use("many.topLevelTypes")
+		n = g.manyCount(false)
+	}
 	if n > 1 {
 		g.use("compilationUnit.severalTypes")
 	}
@@ -116,6 +150,11 @@ func (g *gen) importDeclaration() {
 		g.qualifiedName(3)
 		g.glue(".")
 		name := g.tname()
+		if len(g.imported) > 0 && g.chance(12) {
+			// the simple name of an earlier import again, from another package
+			g.use("importDeclaration.sameSimpleName")
+			name = g.imported[len(g.imported)-1]
+		}
 		g.glue(name)
 		g.imported = append(g.imported, name)
 	case 1:
@@ -238,9 +277,31 @@ func (g *gen) typeModifierList(top bool) {
 		g.use("annotation.frameworkName")
 		g.use("annotation.marker")
 		g.w("@")
+		if g.chance(12) {
+			g.use("annotation.qualified")
+			g.use("annotation.qualifiedFrameworkName")
+			g.frameworkPackage()
+		}
 		g.glue([]string{"RestController", "Controller"}[g.n(2)])
 		if g.chance(60) {
 			g.frameworkMapping()
+		}
+	}
+	g.stereotype = false
+	if g.spring && g.chance(20) {
+		// a component of the dependency-injection map: the class then implements an imported interface, when there is one
+		g.use("annotation.frameworkName")
+		g.use("annotation.stereotype")
+		g.stereotype = true
+		g.w("@")
+		g.glue([]string{"Component", "Repository", "Service"}[g.n(3)])
+		if g.chance(30) {
+			g.use("annotation.singleValue")
+			g.use("elementValue.constant")
+			g.use("literal.string")
+			g.w("(", `"bean"`, ")")
+		} else {
+			g.use("annotation.marker")
 		}
 	}
 	g.annotations(25, false)
@@ -303,6 +364,10 @@ func (g *gen) classDeclaration() {
 	g.cls = append(g.cls, name)
 	defer func() { g.cls = g.cls[:len(g.cls)-1] }()
 	defer g.release(g.mark()) // the fields of the class
+	stereotype := g.stereotype
+	g.stereotype = false
+	g.enter(g.typeKind("named"))
+	defer g.leave()
 	g.w("class", name)
 	if g.pickW(4, 1) == 1 {
 		g.use("classDeclaration.typeParameters")
@@ -318,6 +383,19 @@ func (g *gen) classDeclaration() {
 		g.use("classDeclaration.implements")
 		g.use("classDeclaration.implementsNeighbour")
 		g.w("implements", "NbService")
+		if stereotype {
+			g.use("classDeclaration.stereotypeImplementsImported")
+		}
+	} else if stereotype && len(g.imported) > 0 && g.chance(70) {
+		// @Component class Impl implements <imported interface> (, more)
+		g.use("classDeclaration.implements")
+		g.use("classDeclaration.stereotypeImplementsImported")
+		g.w("implements", g.imported[g.n(len(g.imported))])
+		for i := 0; i < 2 && g.chance(30); i++ {
+			g.use("typeList.several")
+			g.w(",")
+			g.refType(true)
+		}
 	} else if g.pickW(3, 1) == 1 {
 		g.use("classDeclaration.implements")
 		g.w("implements")
@@ -352,6 +430,10 @@ func (g *gen) classBody(kind string) {
 	g.depth++
 	defer func() { g.depth-- }()
 	defer g.release(g.mark()) // the fields of the body
+	if kind == "anonymous" {
+		g.enter("anonymous")
+		defer g.leave()
+	}
 	g.w("{")
 	k := g.pickW(2, 3, 4, 4, 3, 3, 2, 2, 1)
 	for i := 0; i < k; i++ {
@@ -420,7 +502,19 @@ func (g *gen) classBodyDeclaration(kind string) {
 	defer func() { g.depth-- }()
 	g.fuel--
 	g.maybeComment()
-	switch g.pickW(12, 8, 4, 1, 2, 2, 3, 1, 1, 2) {
+	handler := 0
+	if g.spring {
+		handler = 4
+	}
+	switch g.pickW(12, 8, 4, 1, 2, 2, 3, 1, 1, 2, 1, 2, 2, handler) {
+	case 13:
+		g.handlerMethod()
+	case 10:
+		g.nestedChain()
+	case 11:
+		g.manyMembers()
+	case 12:
+		g.nestCombo()
 	case 9:
 		g.bulkMembers()
 	case 0:
@@ -632,6 +726,9 @@ func (g *gen) formalParameterList(allowVarargs bool) {
 
 func (g *gen) interfaceDeclaration() {
 	g.use("interfaceDeclaration")
+	g.stereotype = false
+	g.enter(g.typeKind("interface"))
+	defer g.leave()
 	g.w("interface", g.tname())
 	if g.pickW(4, 1) == 1 {
 		g.use("interfaceDeclaration.typeParameters")
@@ -761,6 +858,9 @@ func (g *gen) enumDeclaration() {
 	g.cls = append(g.cls, name)
 	defer func() { g.cls = g.cls[:len(g.cls)-1] }()
 	defer g.release(g.mark()) // the fields of the enum
+	g.stereotype = false
+	g.enter(g.typeKind("named"))
+	defer g.leave()
 	g.w("enum", name)
 	if g.pickW(3, 1) == 1 {
 		g.use("enumDeclaration.implements")
@@ -814,6 +914,9 @@ func (g *gen) recordDeclaration() {
 	g.cls = append(g.cls, name)
 	defer func() { g.cls = g.cls[:len(g.cls)-1] }()
 	defer g.release(g.mark()) // the components and fields of the record
+	g.stereotype = false
+	g.enter(g.typeKind("named"))
+	defer g.leave()
 	g.w("record", name)
 	if g.pickW(4, 1) == 1 {
 		g.use("recordDeclaration.typeParameters")
@@ -852,6 +955,9 @@ func (g *gen) recordDeclaration() {
 
 func (g *gen) annotationTypeDeclaration() {
 	g.use("annotationTypeDeclaration")
+	g.stereotype = false
+	g.enter(g.typeKind("interface"))
+	defer g.leave()
 	g.w("@")
 	g.glue("interface")
 	g.w(g.tname())
